@@ -166,6 +166,10 @@ class Ref:
             self.writes.append((int(o[2]), unhx(t[1]), unhx(t[2])))
         elif t[0] == "delete" and o[:2] == ["delete", "ok"]:
             self.writes.append((int(o[2]), unhx(t[1]), None))
+        elif t[0] == "fill" and len(o) == 2 and o[1].isdigit():
+            n, last = int(t[1]), int(o[1])
+            for i in range(n):
+                self.writes.append((last - n + 1 + i, unhx(t[2]) + (b"%05d" % i), unhx(t[3])))
         elif t[0] == "rev" and len(o) == 2:
             self.committed = int(o[1])
         elif t[0] == "compact" and len(o) == 2 and o[1].isdigit():
